@@ -20,7 +20,7 @@ import os
 import sys
 
 sys.path.insert(0, os.path.dirname(os.path.abspath(__file__)))
-from py2coq import Untranslatable, find_func, strip_doc, REPO   # noqa
+from py2coq import Untranslatable, find_func, strip_doc, REPO, single_assignments, find_guard   # noqa
 
 
 def dotted(e):
@@ -32,12 +32,41 @@ def dotted(e):
     return None
 
 
+def is_last_ratio(e):
+    """`chain.acceptance['acceptance_ratio'][-1]`: the acceptance ratio of the step just made"""
+    return (isinstance(e, ast.Subscript) and isinstance(e.slice, ast.UnaryOp) and isinstance(e.slice.op, ast.USub)
+            and isinstance(e.slice.operand, ast.Constant) and e.slice.operand.value == 1
+            and isinstance(e.value, ast.Subscript) and isinstance(e.value.slice, ast.Constant) and e.value.slice.value == 'acceptance_ratio'
+            and dotted(e.value.value) == 'chain.acceptance')
+
+
+def is_accepted_expr(e, aliases):
+    """`chain.acceptance[-1]['accepted']`, or a local name bound to it"""
+    if isinstance(e, ast.Name):
+        return e.id in aliases
+    return (isinstance(e, ast.Subscript) and isinstance(e.slice, ast.Constant) and e.slice.value == 'accepted'
+            and isinstance(e.value, ast.Subscript) and dotted(e.value.value) == 'chain.acceptance'
+            and isinstance(e.value.slice, ast.UnaryOp) and isinstance(e.value.slice.op, ast.USub)
+            and isinstance(e.value.slice.operand, ast.Constant) and e.value.slice.operand.value == 1)
+
+
 class NTr:
     def __init__(self, oracles=None, subscripts=None, any_attr=False):
         self.any_attr = any_attr    # adaptation slices: every `self.<attr>` read is a parameter, `**` and decimal literals allowed
         self.params = []            # (name, type) in order of first use
         self.oracles = oracles or {}
         self.subscripts = subscripts or {}
+        self.locals = {}            # temporaries: name -> expression of their single assignment (inlined on demand)
+        self._busy = set()
+
+    def resolve(self, e):
+        """follow aliases: a name bound once to another expression stands for that expression"""
+        seen = set()
+        while (isinstance(e, ast.Name) and e.id in self.locals and e.id not in seen
+               and isinstance(self.locals[e.id], (ast.Name, ast.Attribute))):        # plain aliases only
+            seen.add(e.id)
+            e = self.locals[e.id]
+        return e
 
     def param(self, name, ty='T'):
         if (name, ty) not in self.params:
@@ -65,7 +94,15 @@ class NTr:
                 if ty != 'T':
                     raise Untranslatable('%s used as a number' % e.id)
                 return v
+            if e.id in self.locals and e.id not in self._busy:
+                self._busy.add(e.id)
+                try:
+                    return self.num(self.locals[e.id], env)
+                finally:
+                    self._busy.discard(e.id)
             raise Untranslatable('free name %s' % e.id)
+        if is_last_ratio(e):
+            return self.param('ar')
         d = dotted(e)
         if d == 'self.beta':
             return self.param('a_beta')
@@ -78,6 +115,8 @@ class NTr:
             return '(%s %s %s)' % (op, self.num(e.left, env), self.num(e.right, env))
         if isinstance(e, ast.UnaryOp) and isinstance(e.op, ast.USub):
             return '(nopp %s)' % self.num(e.operand, env)
+        if isinstance(e, ast.IfExp):
+            return '(if %s then %s else %s)' % (self.boo(e.test, env), self.num(e.body, env), self.num(e.orelse, env))
         if isinstance(e, ast.Call) and not e.keywords:
             f = dotted(e.func)
             if f in ('numpy.exp', 'numpy.log') and len(e.args) == 1:
@@ -86,7 +125,7 @@ class NTr:
             if key in self.oracles:
                 return self.param(self.oracles[key])
         if isinstance(e, ast.Subscript):
-            key = (dotted(e.value), dotted(e.slice) or ast.unparse(e.slice))
+            key = (dotted(self.resolve(e.value)), dotted(e.slice) or ast.unparse(e.slice))
             if key in self.subscripts:
                 return self.param(self.subscripts[key])
         raise Untranslatable('numeric expression %s' % ast.dump(e)[:90])
@@ -97,6 +136,14 @@ class NTr:
             return 'true' if e.value else 'false'
         if isinstance(e, ast.Name) and e.id in env and env[e.id][0] == 'bool':
             return env[e.id][1]
+        if isinstance(e, ast.Name) and e.id not in env and e.id in self.locals and e.id not in self._busy:
+            self._busy.add(e.id)
+            try:
+                return self.boo(self.locals[e.id], env)
+            finally:
+                self._busy.discard(e.id)
+        if is_accepted_expr(e, ()):
+            return self.param('accepted', 'bool')
         if isinstance(e, ast.UnaryOp) and isinstance(e.op, ast.Not):
             return '(negb %s)' % self.boo(e.operand, env)
         if isinstance(e, ast.BoolOp):
@@ -108,8 +155,9 @@ class NTr:
             return '(nisnan %s)' % self.num(e.args[0], env)
         if isinstance(e, ast.Compare) and len(e.ops) == 1:
             op, a, b = e.ops[0], e.left, e.comparators[0]
-            if isinstance(op, ast.Eq) and isinstance(b, ast.UnaryOp) and isinstance(b.op, ast.USub) and dotted(b.operand) == 'numpy.inf':
-                return '(nisneginf %s)' % self.num(a, env)
+            if isinstance(op, (ast.Eq, ast.NotEq)) and isinstance(b, ast.UnaryOp) and isinstance(b.op, ast.USub) and dotted(b.operand) == 'numpy.inf':
+                t = '(nisneginf %s)' % self.num(a, env)
+                return t if isinstance(op, ast.Eq) else '(negb %s)' % t
             x, y = self.num(a, env), self.num(b, env)
             if isinstance(op, ast.Gt):
                 return '(nltb %s %s)' % (y, x)
@@ -130,7 +178,15 @@ class NTr:
             return True
         if isinstance(e, ast.Name) and e.id in env:
             return env[e.id][0] == 'bool'
+        if isinstance(e, ast.Name) and e.id in self.locals and e.id not in self._busy:
+            self._busy.add(e.id)
+            try:
+                return self.is_bool(self.locals[e.id], env)
+            finally:
+                self._busy.discard(e.id)
         if isinstance(e, ast.Call) and dotted(e.func) == 'numpy.isnan':
+            return True
+        if is_accepted_expr(e, ()):
             return True
         return False
 
@@ -177,7 +233,8 @@ class NTr:
     def signature(self, order=None):
         ps = list(self.params)
         if order:
-            ps.sort(key=lambda p: order.index(p[0]) if p[0] in order else len(order))
+            # the listed parameters first, in that order; the others by name (so that the signature does not depend on the order of use)
+            ps.sort(key=lambda p: (order.index(p[0]), '') if p[0] in order else (len(order), p[0]))
         return ' '.join('(%s : %s)' % p for p in ps)
 
 
@@ -198,17 +255,28 @@ def split_at_if_on(stmts, var):
     raise Untranslatable('no `if` on %s' % var)
 
 
+def ratio_var(b):
+    """the local that holds the log of the acceptance ratio: the first name assigned in _acceptance_ratio"""
+    for st in b:
+        if isinstance(st, ast.Assign) and len(st.targets) == 1 and isinstance(st.targets[0], ast.Name):
+            return st.targets[0].id
+        if isinstance(st, ast.If):
+            break
+    raise Untranslatable('_acceptance_ratio does not start by computing the log ratio')
+
+
 def t_mh_logar():
     f = find_func('epsie/chain/chain.py', 'Chain', '_acceptance_ratio')
     b = strip_doc(f.body)
-    i = split_at_if_on(b, 'logar')
+    var = ratio_var(b)
+    i = split_at_if_on(b, var)
     tr = NTr(MH_ORACLES)
     env = args_env(f)
     for a in ('logp', 'logl', 'current_logp', 'current_logl'):
         if a not in env:
             raise Untranslatable('_acceptance_ratio has no argument %s' % a)
         tr.param(a)
-    e = tr.body(b[:i], env, False, lambda t, env_, drew: t.num(ast.Name(id='logar'), env_))
+    e = tr.body(b[:i], env, False, lambda t, env_, drew: t.num(ast.Name(id=var), env_))
     for p_ in ('a_beta', 'symmetric', 'q_rev', 'q_fwd'):
         tr.param(p_, 'bool' if p_ == 'symmetric' else 'T')
     return 'Definition src_mh_logar {T : Type} `{Num T} %s : T := %s.' % (tr.signature(MH_ORDER), e)
@@ -217,19 +285,25 @@ def t_mh_logar():
 def t_mh_decide():
     f = find_func('epsie/chain/chain.py', 'Chain', '_acceptance_ratio')
     b = strip_doc(f.body)
-    i = split_at_if_on(b, 'logar')
+    var = ratio_var(b)
+    i = split_at_if_on(b, var)
     tr = NTr(MH_ORACLES)
     tr.param('logar')
     tr.param('u')
 
     def noret(t, env_, drew):
         raise Untranslatable('control reaches the end of _acceptance_ratio without a return')
-    e = tr.body(b[i:], {'logar': ('T', 'logar')}, False, noret)
+    e = tr.body(b[i:], {var: ('T', 'logar')}, False, noret)
     return 'Definition src_mh_decide {T : Type} `{Num T} %s : sres T := %s.' % (tr.signature(MH_ORDER), e)
 
 
+STEP_ARGS = [('logp',), ('logl',), ('proposal',), ('current_logp', "current_stats['logp']"), ('current_logl', "current_stats['logl']"),
+             ('current_pos',)]
+
+
 def t_step_forced():
-    """`if logp == -numpy.inf: accept = False; ar = 0.  else: accept, ar = self._acceptance_ratio(logp, logl, proposal, current_logp, current_logl, current_pos)`"""
+    """`if logp == -numpy.inf: accept = False; ar = 0.  else: accept, ar = self._acceptance_ratio(logp, logl, proposal, current_logp,
+    current_logl, current_pos)` - or the same with the test negated and the branches swapped"""
     f = find_func('epsie/chain/chain.py', 'Chain', 'step')
     node = None
     for s in f.body:
@@ -240,16 +314,24 @@ def t_step_forced():
         raise Untranslatable('Chain.step has no `if logp == ...`')
     tr = NTr()
     test = tr.boo(node.test, {'logp': ('T', tr.param('logp'))})
-    oe = node.orelse
-    want = ['logp', 'logl', 'proposal', 'current_logp', 'current_logl', 'current_pos']
-    if not (len(oe) == 1 and isinstance(oe[0], ast.Assign) and isinstance(oe[0].targets[0], ast.Tuple)
-            and [dotted(x) for x in oe[0].targets[0].elts] == ['accept', 'ar'] and isinstance(oe[0].value, ast.Call)
-            and dotted(oe[0].value.func) == 'self._acceptance_ratio' and [dotted(a) for a in oe[0].value.args] == want
-            and not oe[0].value.keywords):
-        raise Untranslatable('the else branch of the forced reject is not `accept, ar = self._acceptance_ratio(%s)`' % ', '.join(want))
-    forced = tr.body(node.body, {}, False, lambda t, env_, drew: '(SRet %s %s false)' % (t.boo(ast.Name(id='accept'), env_), t.num(ast.Name(id='ar'), env_)))
-    return ('Definition src_step_decide {T : Type} `{Num T} (logp : T) (inner : sres T) : sres T := if %s then %s else inner.'
-            % (test, forced))
+
+    def is_call(blk):
+        if not (len(blk) == 1 and isinstance(blk[0], ast.Assign) and isinstance(blk[0].targets[0], ast.Tuple)
+                and [dotted(x) for x in blk[0].targets[0].elts] == ['accept', 'ar'] and isinstance(blk[0].value, ast.Call)
+                and dotted(blk[0].value.func) == 'self._acceptance_ratio' and not blk[0].value.keywords and len(blk[0].value.args) == len(STEP_ARGS)):
+            return False
+        return all(ast.unparse(a) in alts for a, alts in zip(blk[0].value.args, STEP_ARGS))
+
+    def forced(blk):
+        return tr.body(blk, {}, False, lambda t, env_, drew: '(SRet %s %s false)' % (t.boo(ast.Name(id='accept'), env_), t.num(ast.Name(id='ar'), env_)))
+    if is_call(node.orelse):
+        return ('Definition src_step_decide {T : Type} `{Num T} (logp : T) (inner : sres T) : sres T := if %s then %s else inner.'
+                % (test, forced(node.body)))
+    if is_call(node.body):
+        return ('Definition src_step_decide {T : Type} `{Num T} (logp : T) (inner : sres T) : sres T := if %s then inner else %s.'
+                % (test, forced(node.orelse)))
+    raise Untranslatable('neither branch of the test on logp is `accept, ar = self._acceptance_ratio(logp, logl, proposal, current_logp, '
+                         'current_logl, current_pos)`')
 
 
 def swap_loop():
@@ -293,140 +375,185 @@ def t_swap_decide():
 
 
 # ---------------------------------------------------------------------------
-# adaptation: the scalar arithmetic inside the guarded block of each _update
-def guarded_body(path, cls, fn):
+# adaptation: the scalar arithmetic inside the guarded block of each _update, followed symbolically: every temporary that is a
+# scalar expression of the step count, the acceptance record and the proposal's attributes is inlined; arrays are not followed
+def window_body(path, cls, fn):
+    """(name of the local holding the step count, the statements that run inside the adaptation window)"""
     f = find_func(path, cls, fn)
     b = strip_doc(f.body)
-    if not (len(b) == 2 and isinstance(b[0], ast.Assign) and dotted(b[0].targets[0]) == 'dk' and isinstance(b[1], ast.If) and not b[1].orelse):
-        raise Untranslatable('%s.%s is not `dk = ...; if <window>: ...`' % (cls, fn))
-    return b[1].body
+    if not (b and isinstance(b[0], ast.Assign) and len(b[0].targets) == 1 and isinstance(b[0].targets[0], ast.Name)):
+        raise Untranslatable('%s.%s does not start with `<steps> = ...`' % (cls, fn))
+    try:
+        tests, body = find_guard(b[1:])
+    except Untranslatable:
+        raise Untranslatable('%s.%s is not a single guarded block' % (cls, fn))
+    return b[0].targets[0].id, body
 
 
-def t_factor(name, path, cls, fn):
-    """the statement `dk = <expression in dk>` that turns the step count into the decaying gain"""
-    body = guarded_body(path, cls, fn)
-    asg = [s for s in body if isinstance(s, ast.Assign) and dotted(s.targets[0]) == 'dk']
-    if len(asg) != 1 or body.index(asg[0]) != 0:
-        raise Untranslatable('%s.%s: the guarded block does not start with one `dk = ...`' % (cls, fn))
-    tr = NTr(any_attr=True)
-    tr.param('dk')
-    e = tr.num(asg[0].value, {'dk': ('T', 'dk')})
-    return 'Definition %s {T : Type} `{Num T} %s : T := %s.' % (name, tr.signature(), e)
-
-
-def t_log_update(name, path, cls, fn, attr, skip_call=None):
-    """`self.<attr> += <expression in dk, ar>`: the Robbins-Monro step of the log-scale"""
-    body = guarded_body(path, cls, fn)
-    hits = []
-    for s in body:
+def assigned_names(stmts):
+    out = set()
+    for s in stmts:
         for n in ast.walk(s):
-            if isinstance(n, ast.AugAssign) and dotted(n.target) == 'self.' + attr:
-                if skip_call and isinstance(n.value, ast.Call) and dotted(n.value.func) == skip_call:
-                    continue
-                hits.append(n)
-    if len(hits) != 1 or not isinstance(hits[0].op, ast.Add):
-        raise Untranslatable('%s.%s: expected exactly one `self.%s += ...`' % (cls, fn, attr))
+            if isinstance(n, ast.Name) and isinstance(n.ctx, ast.Store):
+                out.add(n.id)
+    return out
+
+
+def sym_walk(tr, stmts, env, is_target):
+    """execute straight-line statements symbolically; returns (env, target statement or None)"""
+    env = dict(env)
+    for s in stmts:
+        if is_target is not None and is_target(s):
+            return env, s
+        if isinstance(s, ast.Assign) and len(s.targets) == 1 and isinstance(s.targets[0], ast.Name):
+            v = s.targets[0].id
+            try:
+                if tr.is_bool(s.value, env):
+                    env[v] = ('bool', tr.boo(s.value, env))
+                else:
+                    env[v] = ('T', tr.num(s.value, env))
+            except Untranslatable:
+                env.pop(v, None)                     # not a scalar this translator follows
+        elif isinstance(s, ast.AugAssign) and isinstance(s.target, ast.Name) and isinstance(s.op, (ast.Add, ast.Sub, ast.Mult, ast.Div)):
+            v = s.target.id
+            op = {ast.Add: 'nadd', ast.Sub: 'nsub', ast.Mult: 'nmul', ast.Div: 'ndiv'}[type(s.op)]
+            try:
+                env[v] = ('T', '(%s %s %s)' % (op, tr.num(ast.Name(id=v, ctx=ast.Load()), env), tr.num(s.value, env)))
+            except Untranslatable:
+                env.pop(v, None)
+        elif isinstance(s, ast.If):
+            e1, t1 = sym_walk(tr, s.body, env, is_target)
+            if t1 is not None:
+                return e1, t1
+            e2, t2 = sym_walk(tr, s.orelse, env, is_target)
+            if t2 is not None:
+                return e2, t2
+            try:
+                c = tr.boo(s.test, env)
+            except Untranslatable:
+                c = None
+            for v in assigned_names(s.body) | assigned_names(s.orelse):
+                x, y = e1.get(v), e2.get(v)
+                if c is not None and x is not None and y is not None and x[0] == y[0]:
+                    env[v] = (x[0], x[1] if x[1] == y[1] else '(if %s then %s else %s)' % (c, x[1], y[1]))
+                else:
+                    env.pop(v, None)
+        elif isinstance(s, (ast.For, ast.While)):
+            inner = {k: v for k, v in env.items() if k not in assigned_names([s])}
+            e1, t1 = sym_walk(tr, s.body, inner, is_target)
+            if t1 is not None:
+                return e1, t1
+            for v in assigned_names([s]):
+                env.pop(v, None)
+        else:
+            for v in assigned_names([s]):
+                env.pop(v, None)
+    return env, None
+
+
+def t_log_step(name, path, cls, fn, attr, skip_call=None):
+    """the new value of `self.<attr>` after its `+=` / `-=` inside the window, as a function of the old value, the step
+    count, the acceptance ratio of the step just made and the proposal's settings"""
+    var, body = window_body(path, cls, fn)
     tr = NTr(any_attr=True)
-    for p_ in ('cur', 'd', 'ar'):
+    for p_ in ('cur', 'dk', 'ar'):
         tr.param(p_)
-    e = tr.num(hits[0].value, {'dk': ('T', 'd'), 'ar': ('T', 'ar')})
-    return 'Definition %s {T : Type} `{Num T} %s : T := (nadd cur %s).' % (name, tr.signature(), e)
+
+    def is_target(s_):
+        return (isinstance(s_, ast.AugAssign) and dotted(s_.target) == 'self.' + attr and isinstance(s_.op, (ast.Add, ast.Sub))
+                and not (skip_call and isinstance(s_.value, ast.Call) and dotted(s_.value.func) == skip_call))
+    n = sum(1 for st in body for m in ast.walk(st) if is_target(m))
+    if n != 1:
+        raise Untranslatable('%s.%s: expected exactly one scalar update of self.%s, found %d' % (cls, fn, attr, n))
+    env, tgt = sym_walk(tr, body, {var: ('T', 'dk')}, is_target)
+    if tgt is None:
+        raise Untranslatable('%s.%s: the update of self.%s is not reached by straight-line code' % (cls, fn, attr))
+    op = 'nadd' if isinstance(tgt.op, ast.Add) else 'nsub'
+    e = '(%s cur %s)' % (op, tr.num(tgt.value, env))
+    return 'Definition %s {T : Type} `{Num T} %s : T := %s.' % (name, tr.signature(['cur', 'dk', 'ar']), e)
 
 
 def t_cw_update(name):
-    """_componentwise_scaling: `dlog_lambda[i] = dk * (ar - self.target_rate)` and the forced ratio 0 of a virtual move out of the prior"""
+    """_componentwise_scaling(self, chain, dk): `dlog_lambda[i] = <gain> * (ar - target)` and the forced ratio 0 of a virtual move out of the prior"""
     f = find_func('epsie/proposals/normal.py', 'ATAdaptiveSupport', '_componentwise_scaling')
-    asg = [n for n in ast.walk(f) if isinstance(n, ast.Assign) and isinstance(n.targets[0], ast.Subscript) and dotted(n.targets[0].value) == 'dlog_lambda']
+    args = [a.arg for a in f.args.args]
+    if len(args) != 3:
+        raise Untranslatable('_componentwise_scaling does not take (self, chain, gain)')
+    gain = args[2]
+    asg = [n for n in ast.walk(f) if isinstance(n, ast.Assign) and isinstance(n.targets[0], ast.Subscript)
+           and dotted(n.targets[0].value) is not None and ast.unparse(n.targets[0].slice) == 'i']
     ifs = [n for n in ast.walk(f) if isinstance(n, ast.If) and isinstance(n.test, ast.Compare) and dotted(n.test.left) == 'logp']
     if len(asg) != 1 or len(ifs) != 1:
-        raise Untranslatable('_componentwise_scaling: expected one `dlog_lambda[i] = ...` and one `if logp == ...`')
+        raise Untranslatable('_componentwise_scaling: expected one `<steps>[i] = ...` and one `if logp == ...`')
     tr = NTr(any_attr=True)
+    tr.locals = {k: v for k, v in single_assignments(f).items() if k not in ('ar',)}
     for p_ in ('d', 'ar'):
         tr.param(p_)
-    e = tr.num(asg[0].value, {'dk': ('T', 'd'), 'ar': ('T', 'ar')})
+    e = tr.num(asg[0].value, {gain: ('T', 'd'), 'ar': ('T', 'ar')})
     t2 = NTr(any_attr=True)
     test = t2.boo(ifs[0].test, {'logp': ('T', 'logp')})
-    forced = ifs[0].body
-    oe = ifs[0].orelse
-    if not (len(forced) == 1 and isinstance(forced[0], ast.Assign) and dotted(forced[0].targets[0]) == 'ar'
-            and len(oe) == 1 and isinstance(oe[0], ast.Assign) and isinstance(oe[0].targets[0], ast.Tuple)
-            and dotted(oe[0].targets[0].elts[1]) == 'ar' and isinstance(oe[0].value, ast.Call)
-            and dotted(oe[0].value.func) == 'chain._acceptance_ratio'):
+
+    def is_ratio_call(blk):
+        return (len(blk) == 1 and isinstance(blk[0], ast.Assign) and isinstance(blk[0].targets[0], ast.Tuple)
+                and dotted(blk[0].targets[0].elts[1]) == 'ar' and isinstance(blk[0].value, ast.Call)
+                and dotted(blk[0].value.func) == 'chain._acceptance_ratio')
+
+    def is_const(blk):
+        return len(blk) == 1 and isinstance(blk[0], ast.Assign) and dotted(blk[0].targets[0]) == 'ar'
+    if is_const(ifs[0].body) and is_ratio_call(ifs[0].orelse):
+        sel = 'if %s then %s else inner' % (test, t2.num(ifs[0].body[0].value, {}))
+    elif is_ratio_call(ifs[0].body) and is_const(ifs[0].orelse):
+        sel = 'if %s then inner else %s' % (test, t2.num(ifs[0].orelse[0].value, {}))
+    else:
         raise Untranslatable('_componentwise_scaling: the virtual move is not `if logp == -inf: ar = c else: _, ar = chain._acceptance_ratio(..)`')
-    fz = t2.num(forced[0].value, {})
-    return ('Definition %s {T : Type} `{Num T} %s : T := %s.\n\nDefinition %s_ar {T : Type} `{Num T} (logp : T) (inner : T) : T := if %s then %s else inner.'
-            % (name, tr.signature(), e, name, test, fz))
+    return ('Definition %s {T : Type} `{Num T} %s : T := %s.\n\nDefinition %s_ar {T : Type} `{Num T} (logp : T) (inner : T) : T := %s.'
+            % (name, tr.signature(), e, name, sel))
 
 
-def is_accepted_expr(e, aliases):
-    """`chain.acceptance[-1]['accepted']`, or a local name bound to it"""
-    if isinstance(e, ast.Name):
-        return e.id in aliases
-    return (isinstance(e, ast.Subscript) and isinstance(e.slice, ast.Constant) and e.slice.value == 'accepted'
-            and isinstance(e.value, ast.Subscript) and dotted(e.value.value) == 'chain.acceptance'
-            and isinstance(e.value.slice, ast.UnaryOp) and isinstance(e.value.slice.op, ast.USub)
-            and isinstance(e.value.slice.operand, ast.Constant) and e.value.slice.operand.value == 1)
-
-
-def t_veitch_alpha():
-    """alpha = (1 - target) after an accepted step, (-target) after a rejected one - as an if/else statement or a conditional
-    expression - and the increment alpha * dk * deltas / 10 (assigned to `dsigmas`, or added to the widths directly)"""
-    body = guarded_body('epsie/proposals/normal.py', 'AdaptiveSupport', '_update')
-    aliases = {dotted(s.targets[0]) for s in body if isinstance(s, ast.Assign) and len(s.targets) == 1 and is_accepted_expr(s.value, set())}
-    a1 = a0 = None
+def t_veitch_inc():
+    """the increment of a width in the Veitch update: alpha * gain * delta / 10 with alpha chosen by the last step's outcome, wherever
+    the source keeps it (its own temporary, or folded into the sum with the old width)"""
+    var, body = window_body('epsie/proposals/normal.py', 'AdaptiveSupport', '_update')
     tr = NTr(any_attr=True)
-    for s in body:
-        if isinstance(s, ast.If) and is_accepted_expr(s.test, aliases) and len(s.body) == 1 and len(s.orelse) == 1 \
-                and all(isinstance(x, ast.Assign) and dotted(x.targets[0]) == 'alpha' for x in (s.body[0], s.orelse[0])):
-            a1, a0 = tr.num(s.body[0].value, {}), tr.num(s.orelse[0].value, {})
-        elif isinstance(s, ast.Assign) and dotted(s.targets[0]) == 'alpha' and isinstance(s.value, ast.IfExp) and is_accepted_expr(s.value.test, aliases):
-            a1, a0 = tr.num(s.value.body, {}), tr.num(s.value.orelse, {})
-    if a1 is None:
-        raise Untranslatable("AdaptiveSupport._update: alpha is not chosen by chain.acceptance[-1]['accepted']")
-    inc = None
-    for s in body:
-        if isinstance(s, ast.Assign) and dotted(s.targets[0]) == 'dsigmas':
-            inc = s.value
-        elif (inc is None and isinstance(s, ast.Assign) and isinstance(s.value, ast.BinOp) and isinstance(s.value.op, ast.Add)
-              and dotted(s.value.left) in ('sigmas', 'self._std') and any(isinstance(n, ast.Name) and n.id == 'alpha' for n in ast.walk(s.value.right))):
-            inc = s.value.right
-    if inc is None:
-        raise Untranslatable('AdaptiveSupport._update: no increment of the widths in alpha found')
-    t2 = NTr(any_attr=True)
-    for p_ in ('alpha', 'd'):
-        t2.param(p_)
-    e = t2.num(inc, {'alpha': ('T', 'alpha'), 'dk': ('T', 'd')})
-    return ('Definition src_veitch_alpha {T : Type} `{Num T} (accepted : bool) %s : T := if accepted then %s else %s.\n\n'
-            'Definition src_veitch_dsigma {T : Type} `{Num T} %s : T := %s.' % (tr.signature(), a1, a0, t2.signature(), e))
+    tr.param('dk')
+    tr.param('accepted', 'bool')
+    env = {var: ('T', 'dk')}
+    found = None
+    for k, st in enumerate(body):
+        if isinstance(st, ast.Assign) and len(st.targets) == 1 and isinstance(st.targets[0], ast.Name):
+            e0, _ = sym_walk(tr, body[:k], env, None)
+            try:
+                t = tr.num(st.value, e0)
+            except Untranslatable:
+                continue
+            if 'accepted' in t and 'a_deltas' in t:
+                # folded form: <old width> + increment
+                v = st.value
+                if isinstance(v, ast.BinOp) and isinstance(v.op, ast.Add):
+                    for old, inc in ((v.left, v.right), (v.right, v.left)):
+                        try:
+                            o = tr.num(old, e0)
+                        except Untranslatable:
+                            continue
+                        if o == 'a_std' and 'accepted' not in o:
+                            t = tr.num(inc, e0)
+                found = t
+                break
+    if found is None:
+        raise Untranslatable('AdaptiveSupport._update: no width increment that depends on the outcome of the last step and on the prior widths')
+    tr.params = [p_ for p_ in tr.params if p_[0] != 'a_std' or 'a_std' in found]
+    return 'Definition src_veitch_inc {T : Type} `{Num T} %s : T := %s.' % (tr.signature(['dk', 'accepted']), found)
 
 
 ADAPT_TARGETS = (
-    ('src_veitch_factor', lambda: t_factor('src_veitch_factor', 'epsie/proposals/normal.py', 'AdaptiveSupport', '_update')),
-    ('src_veitch_alpha', t_veitch_alpha),
-    ('src_at_factor', lambda: t_factor('src_at_factor', 'epsie/proposals/normal.py', 'ATAdaptiveSupport', '_update')),
-    ('src_at_log', lambda: t_log_update('src_at_log', 'epsie/proposals/normal.py', 'ATAdaptiveSupport', '_update', '_log_lambda',
-                                        skip_call='self._componentwise_scaling')),
+    ('src_veitch_inc', t_veitch_inc),
+    ('src_at_log', lambda: t_log_step('src_at_log', 'epsie/proposals/normal.py', 'ATAdaptiveSupport', '_update', '_log_lambda',
+                                      skip_call='self._componentwise_scaling')),
     ('src_cw_dlog', lambda: t_cw_update('src_cw_dlog')),
-    ('src_eig_factor', lambda: t_factor_after('src_eig_factor', 'epsie/proposals/eigenvector.py', 'AdaptiveEigenvectorSupport', '_update')),
-    ('src_eig_log', lambda: t_log_update('src_eig_log', 'epsie/proposals/eigenvector.py', 'AdaptiveEigenvectorSupport', '_update', '_log_lambda')),
-    ('src_kappa_factor', lambda: t_factor('src_kappa_factor', 'epsie/proposals/solid_angle.py', 'AdaptiveIsotropicSolidAngleSupport', '_update')),
-    ('src_kappa_log', lambda: t_log_update('src_kappa_log', 'epsie/proposals/solid_angle.py', 'AdaptiveIsotropicSolidAngleSupport', '_update', '_log_kappa')),
+    ('src_eig_log', lambda: t_log_step('src_eig_log', 'epsie/proposals/eigenvector.py', 'AdaptiveEigenvectorSupport', '_update', '_log_lambda')),
+    ('src_kappa_log', lambda: t_log_step('src_kappa_log', 'epsie/proposals/solid_angle.py', 'AdaptiveIsotropicSolidAngleSupport', '_update',
+                                         '_log_kappa')),
 )
-
-
-def t_factor_after(name, path, cls, fn):
-    """as t_factor, but statements that do not mention dk may precede the `dk = ...` (the eigenvector proposals update their covariance first)"""
-    body = guarded_body(path, cls, fn)
-    asg = [s for s in body if isinstance(s, ast.Assign) and dotted(s.targets[0]) == 'dk']
-    if len(asg) != 1:
-        raise Untranslatable('%s.%s: the guarded block does not contain exactly one `dk = ...`' % (cls, fn))
-    for s in body[:body.index(asg[0])]:
-        if any(isinstance(n, ast.Name) and n.id == 'dk' for n in ast.walk(s)):
-            raise Untranslatable('%s.%s: dk is used before it is turned into the gain' % (cls, fn))
-    tr = NTr(any_attr=True)
-    tr.param('dk')
-    e = tr.num(asg[0].value, {'dk': ('T', 'dk')})
-    return 'Definition %s {T : Type} `{Num T} %s : T := %s.' % (name, tr.signature(), e)
 
 
 def generate_adapt():
@@ -467,9 +594,10 @@ def t_ann_decay():
 
 def t_ann_call():
     f = find_func(PT, 'DynamicalAnnealer', '__call__')
+    loc = single_assignments(f)
     out = []
     # the clip `ars[ars > c] = v`
-    clips = [n for n in f.body if isinstance(n, ast.Assign) and isinstance(n.targets[0], ast.Subscript) and dotted(n.targets[0].value) == 'ars'
+    clips = [n for n in ast.walk(f) if isinstance(n, ast.Assign) and isinstance(n.targets[0], ast.Subscript) and dotted(n.targets[0].value) == 'ars'
              and isinstance(n.targets[0].slice, ast.Compare)]
     if len(clips) != 1 or dotted(clips[0].targets[0].slice.left) != 'ars' or len(clips[0].targets[0].slice.ops) != 1:
         raise Untranslatable('__call__: expected one masked assignment `ars[ars > c] = v`')
@@ -477,31 +605,48 @@ def t_ann_call():
     tr.param('a')
     cond = tr.boo(clips[0].targets[0].slice, {'ars': ('T', 'a')})
     out.append('Definition src_ann_clip {T : Type} `{Num T} %s : T := if %s then %s else a.' % (tr.signature(), cond, tr.num(clips[0].value, {})))
-    # S[i] += decay * (ars[i] - ars[i+1]) for i in range(ntemps - 2)
-    augs = [n for n in f.body if isinstance(n, ast.AugAssign) and dotted(n.target) == 'self._S' and isinstance(n.op, ast.Add)]
-    if len(augs) != 1:
+    # the step of each log temperature gap: <decay> * (ars[i] - ars[i+1]), inside a loop / comprehension over range(ntemps - 2),
+    # whatever temporaries it goes through; it must reach `self._S +=`
+    if sum(1 for n in ast.walk(f) if isinstance(n, ast.AugAssign) and dotted(n.target) == 'self._S' and isinstance(n.op, ast.Add)) != 1:
         raise Untranslatable('__call__: expected one `self._S += ...`')
-    v = augs[0].value
-    if not (isinstance(v, ast.Call) and dotted(v.func) == 'numpy.array' and len(v.args) == 1 and isinstance(v.args[0], ast.ListComp)
-            and len(v.args[0].generators) == 1 and dotted(v.args[0].generators[0].target) == 'i' and not v.args[0].generators[0].ifs
-            and is_range(v.args[0].generators[0].iter, 'chain.ntemps - 2')):
-        raise Untranslatable('__call__: the step of S is not numpy.array([... for i in range(chain.ntemps - 2)])')
-    tr = NTr(oracles={('self._decay', ('iteration',)): 'd'}, subscripts={('ars', 'i'): 'a0', ('ars', 'i + 1'): 'a1'}, any_attr=True)
-    for p_ in ('d', 'a0', 'a1'):
-        tr.param(p_)
-    out.append('Definition src_ann_S_step {T : Type} `{Num T} %s : T := %s.' % (tr.signature(), tr.num(v.args[0].elt, {})))
+    loops = [n for n in ast.walk(f) if isinstance(n, (ast.For, ast.comprehension)) and dotted(n.target) == 'i' and is_range(n.iter, 'chain.ntemps - 2')]
+    if len(loops) != 1:
+        raise Untranslatable('__call__: expected one loop / comprehension `for i in range(chain.ntemps - 2)`')
+    holder = loops[0] if isinstance(loops[0], ast.For) else [n for n in ast.walk(f) if isinstance(n, ast.ListComp) and loops[0] in n.generators][0]
+    best = None
+    for n in ast.walk(holder):
+        if isinstance(n, ast.BinOp) and isinstance(n.op, ast.Mult):
+            t = NTr(oracles={('self._decay', ('iteration',)): 'd'}, subscripts={('ars', 'i'): 'a0', ('ars', 'i + 1'): 'a1'}, any_attr=True)
+            t.locals = loc
+            for p_ in ('d', 'a0', 'a1'):
+                t.param(p_)
+            try:
+                e = t.num(n, {})
+            except Untranslatable:
+                continue
+            if all(x in e for x in ('d', 'a0', 'a1')) and len(t.params) == 3 and (best is None or len(e) > len(best[0])):
+                best = (e, t)
+    if best is None:
+        raise Untranslatable('__call__: no product of the decay with ars[i] - ars[i+1] in the loop over the gaps')
+    out.append('Definition src_ann_S_step {T : Type} `{Num T} %s : T := %s.' % (best[1].signature(['d', 'a0', 'a1']), best[0]))
     # betas[i] = 1/(1/betas[i-1] + exp(S[i-1])) for i in range(1, ntemps - 1), assigned to the level at once
     loops = [n for n in f.body if isinstance(n, ast.For) and dotted(n.target) == 'i' and is_range(n.iter, '1', 'chain.ntemps - 1')]
-    if len(loops) != 1 or len(loops[0].body) != 2:
-        raise Untranslatable('__call__: expected `for i in range(1, chain.ntemps - 1)` with two statements')
-    a, b = loops[0].body
-    if not (isinstance(a, ast.Assign) and ast.unparse(a.targets[0]) == 'chain.betas[i]' and isinstance(b, ast.Assign)
-            and ast.unparse(b.targets[0]) == 'chain.chains[i].beta' and ast.unparse(b.value) == 'chain.betas[i]'):
-        raise Untranslatable('__call__: the loop is not `chain.betas[i] = ...; chain.chains[i].beta = chain.betas[i]`')
+    if len(loops) != 1:
+        raise Untranslatable('__call__: expected `for i in range(1, chain.ntemps - 1)`')
     tr = NTr(subscripts={('chain.betas', 'i - 1'): 'prev', ('self._S', 'i - 1'): 's'}, any_attr=True)
+    tr.locals = loc
     for p_ in ('prev', 's'):
         tr.param(p_)
-    out.append('Definition src_ann_beta {T : Type} `{Num T} %s : T := %s.' % (tr.signature(), tr.num(a.value, {})))
+    stores = [st for st in loops[0].body if isinstance(st, ast.Assign) and isinstance(st.targets[0], ast.Subscript)
+              and dotted(tr.resolve(st.targets[0].value)) == 'chain.betas' and ast.unparse(st.targets[0].slice) == 'i']
+    levels = [st for st in loops[0].body if isinstance(st, ast.Assign) and ast.unparse(st.targets[0]) == 'chain.chains[i].beta'
+              and isinstance(st.value, ast.Subscript) and dotted(tr.resolve(st.value.value)) == 'chain.betas' and ast.unparse(st.value.slice) == 'i']
+    if len(stores) != 1 or len(levels) != 1 or loops[0].body.index(levels[0]) < loops[0].body.index(stores[0]):
+        raise Untranslatable('__call__: the loop does not rebuild chain.betas[i] and then assign it to chain.chains[i].beta')
+    e = tr.num(stores[0].value, {})
+    if len(tr.params) != 2:
+        raise Untranslatable('__call__: the rebuilt beta depends on more than the colder beta and the gap')
+    out.append('Definition src_ann_beta {T : Type} `{Num T} %s : T := %s.' % (tr.signature(['prev', 's']), e))
     return '\n\n'.join(out)
 
 
